@@ -167,7 +167,7 @@ def canon_impl(res):
             out.append(l.rstrip())
         elif re.match(r"S -?\d+ :", l):
             out.append(l)
-        elif l.startswith("S  chan") or l.startswith("S  timers"):
+        elif l.startswith("S  chan") or l.startswith("S  timers") or l.startswith("S  stream"):
             out.append("S " + l[3:].rstrip())
         elif l.startswith("S  fiber"):
             m = re.match(r"S  fiber (\S+) sid=(\d+)", l)
